@@ -237,15 +237,15 @@ Section VqeProofs.
   Lemma inner_lincomb_cons_r n (v : state) ce r :
     inner n v (lincomb S (ce :: r)) = fst ce * inner n v (snd ce) + inner n v (lincomb S r).
   Proof.
-    unfold lincomb. cbn [fold_right]. Show. ring.
-    unfold lincomb. cbn [fold_right]. ring.
+    unfold State.inner. rewrite <- ksum_scale, <- ksum_add. apply ksum_ext. intros i _.
+    unfold lincomb. cbn [fold_right]. unfold State.state in *. ring.
   Qed.
 
   Lemma inner_lincomb_cons_l n (v : state) ce r :
     inner n (lincomb S (ce :: r)) v = kconj (fst ce) * inner n (snd ce) v + inner n (lincomb S r) v.
   Proof.
     unfold State.inner. rewrite <- ksum_scale, <- ksum_add. apply ksum_ext. intros i _.
-    unfold lincomb. cbn [fold_right]. rewrite kconj_add, kconj_mul. ring.
+    unfold lincomb. cbn [fold_right]. rewrite kconj_add, kconj_mul. unfold State.state in *. ring.
   Qed.
 
   Lemma inner_lincomb_r_zero n (v : state) cs :
@@ -396,9 +396,9 @@ Section OpExpProofs.
   Proof.
     intros Hn Hm He. unfold Vqe.resolve. rewrite Hn.
     assert (E1 : negb (a_mos args) && negb (e_molecule env) = false).
-    { destruct Hm as [-> | ->]; simpl; [reflexivity|apply andb_false_r]. }
+    { destruct (a_mos args), (e_molecule env); try reflexivity. destruct Hm; discriminate. }
     assert (E2 : negb (a_elec args) && e_scbk env && negb (e_molecule env) = false).
-    { destruct He as [-> | [-> | ->]]; simpl; [reflexivity|apply andb_false_r|apply andb_false_r]. }
+    { destruct (a_elec args), (e_scbk env), (e_molecule env); try reflexivity. destruct He as [H|[H|H]]; discriminate. }
     rewrite E1, E2. reflexivity.
   Qed.
 End OpExpProofs.
@@ -466,3 +466,40 @@ Section ReorderProofs.
     /\ n_reorder true true = 2%nat.
   Proof. split; reflexivity. Qed.
 End ReorderProofs.
+
+(* ================================================================ a non-trivial eigen-expansion *)
+(* H = Z on qubit 0: |0> and |1> are orthonormal eigenvectors for +1 and -1 (any number structure);
+   used as the non-vacuity witness of the Rayleigh theorems *)
+Section ZExample.
+  Variable S : KS.
+  Add Ring kringz : (k_ring S).
+  Open Scope K_scope.
+
+  Definition opZ0 : op S := [([(0%N, PZ)], 1)].
+  Definition z_eigs (c0 c1 : K S) : list (eig S) := [(c0, 1, ket S 0); (c1, - (1), ket S 1)].
+
+  Lemma opZ0_den (psi : state S) x :
+    op_den S opZ0 psi x = if bit x 0 then - psi x else psi x.
+  Proof.
+    unfold opZ0, op_den, word_den, app1, pauli_mat, mZ. cbn [fold_left fst snd m00 m01 m10 m11].
+    destruct (bit x 0); ring.
+  Qed.
+
+  Lemma z_eigenpairs c0 c1 : eigenpairs S (op_den S opZ0) (z_eigs c0 c1).
+  Proof.
+    unfold z_eigs, eigenpairs. repeat constructor; intro x; rewrite opZ0_den; unfold e_v, e_l, ket; cbn [fst snd].
+    - destruct (bit x 0) eqn:B; [|ring].
+      destruct (N.eqb_spec x 0) as [->|_]; [discriminate B|ring].
+    - destruct (bit x 0) eqn:B; [ring|].
+      destruct (N.eqb_spec x 1) as [->|_]; [discriminate B|ring].
+  Qed.
+
+  Lemma z_orthonormal c0 c1 : orthonormal S 1 (map (e_v S) (z_eigs c0 c1)).
+  Proof.
+    unfold z_eigs, e_v. cbn [map snd orthonormal]. unfold inner, ket. cbn [Nat.pow Nat.mul Nat.add ksum N.of_nat N.eqb Pos.of_succ_nat Pos.succ Pos.eqb].
+    rewrite ?kconj_0, ?kconj_1.
+    cbv beta. split; [ring|].
+    split; [constructor; [split; simpl; rewrite ?kconj_0, ?kconj_1; ring|constructor]|].
+    split; [ring|]. split; [constructor|exact I].
+  Qed.
+End ZExample.
